@@ -170,6 +170,13 @@ func (ch *channel) SendAndClose(ctx async.Context, data []byte) status.Status {
 		return statusChannelClosed
 	}
 
+	// The channel context is cancelled by close below. Handlers pass it as ctx, they must still
+	// be able to wait for space in the write queue, otherwise the last message and the close
+	// are never sent, and the peer waits for them until the connection is closed.
+	if ctx == async.Context(s.ctx) {
+		ctx = async.NoContext()
+	}
+
 	// If opened, close, send data/close
 	if s.opened.Load() {
 		s.close()
